@@ -14,7 +14,8 @@ package gen
 
 //@ iface Field.Write
 //@   requires metaOK(meta) && external(w)
-//@   modifies meta, HA(meta.rowGroups), heap("sch.ColumnMetaData"), heap("map[string]sch.ColumnChunk"), wfault
+//@   verify[C13]
+//@   modifies meta, HA(meta.rowGroups), heap("sch.ColumnMetaData"), heap("map[string]sch.ColumnChunk"), wfault, relArr
 //@   ensures metaOK(meta) && meta.rowGroups == old(meta.rowGroups)
 //@   ensures[C09] err == nil ==> (wfault ==> old(wfault))
 
@@ -58,13 +59,13 @@ package gen
 
 //@ func (*ParquetWriter).Write
 //@   requires writerOK(p)
-//@   modifies p, p.meta, HA(p.meta.rowGroups), heap("sch.ColumnMetaData"), heap("map[string]sch.ColumnChunk"), wfault
+//@   modifies p, p.meta, HA(p.meta.rowGroups), heap("sch.ColumnMetaData"), heap("map[string]sch.ColumnChunk"), wfault, relArr
 //@   ensures[C09] err == nil ==> (wfault ==> old(wfault))
 //@ loop (*ParquetWriter).Write#1
-//@   modifies p.meta, HA(p.meta.rowGroups), heap("sch.ColumnMetaData"), heap("map[string]sch.ColumnChunk"), wfault
+//@   modifies p.meta, HA(p.meta.rowGroups), heap("sch.ColumnMetaData"), heap("map[string]sch.ColumnChunk"), wfault, relArr
 //@   invariant metaOK(p.meta) && (wfault ==> old(wfault)) && p.meta.rowGroups == old(p.meta.rowGroups)
 //@ loop (*ParquetWriter).Write#2
-//@   modifies p.meta, HA(p.meta.rowGroups), heap("sch.ColumnMetaData"), heap("map[string]sch.ColumnChunk"), wfault
+//@   modifies p.meta, HA(p.meta.rowGroups), heap("sch.ColumnMetaData"), heap("map[string]sch.ColumnChunk"), wfault, relArr
 //@   invariant metaOK(p.meta) && (wfault ==> old(wfault)) && p.meta.rowGroups == old(p.meta.rowGroups)
 //@ loop (*ParquetWriter).Write#3
 //@   modifies HA(schema)
